@@ -149,7 +149,9 @@ fn decode_lpc<T: Into<i64> + Copy>(
         for (tau, w) in coefs.iter().enumerate() {
             pred += <T as Into<i64>>::into(*w) * i64::from(dest[t - 1 - tau]);
         }
-        dest[t] += (pred >> shift) as i32;
+        // The prediction may not fit in `i32` even when the residual and the
+        // decoded sample do.
+        dest[t] = (i64::from(dest[t]) + (pred >> shift)) as i32;
     }
 }
 
